@@ -257,18 +257,11 @@ AUTO_CHECK = re.compile(r"[.](array_bounds|pointer_dereference|pointer_arithmeti
 
 def _is_env_check(desc, prop_id, file):
     """True for a failed check that guards the environment rather than /repo's code: a stub's capacity / modelling limit, or
-    an automatically generated safety check located in a hand-written stub / harness file (the slices of /repo live in the
-    work directory as generated .inc files and are NOT covered by this)."""
+    a construct the environment does not model - always an explicit, labelled assertion of the stub."""
     if ENV_DESC.search(desc):
         return True
-    # automatically generated safety checks inside the harness / wrapper glue (functions h_*, w<id>_*, wx_*: they run before and
-    # after the real code): an overflow of the glue's own tables.  Checks inside stub CLASS methods are not covered - a null
-    # `this` there is a consequence of what the real code did (e.g. C20-KF4).
-    if AUTO_CHECK.search(prop_id) and file and re.match(r"^(h_|w[0-9a-z]*_|wx_)", prop_id):
-        f = os.path.realpath(file)
-        for d in ("contracts", "stubs"):
-            if f.startswith(os.path.join(VERIF, d) + os.sep):
-                return True
+    # (automatically generated safety checks - null dereference, array bounds - are NOT classified here, wherever they sit: in
+    # an accessor of the glue they are the consequence of what the real code returned, e.g. an empty expression or a null uid)
     return False
 
 
